@@ -673,6 +673,8 @@ def case_flags(name, args):
     if name.startswith('proj'):
         dims += [1 for a in args if a['kind'] == 'scalar']     # ak.broadcast_arrays turns a scalar into a length-1 array
     allreg = all(pure_regular(a['T']) and not has_kind(a['T'], 'rec') for a in arrs)
+    if all(pure_regular(a['T']) for a in arrs) and len(set(rdepth(a['T']) for a in arrs)) > 1:
+        dims.append(1)                 # implicit size-1 dimensions of the right-broadcast shallower arguments
     nd = False
     surplus = False
     zero_lo = False
@@ -693,7 +695,8 @@ def case_flags(name, args):
             if nd_[0] == 'la' and len(nd_[2]) >= 1 and int(nd_[2][0]) != 0:
                 zero_lo = True
     return dict(all_regular=allreg, ndnumpy=nd, ndnumpy_inner=nd and not allreg, size0=0 in inner,
-                size01=(0 in inner + dims and 1 in inner + dims), regular_surplus=surplus, nonzero_start=zero_lo,
+                size01=(0 in inner + dims and (1 in inner + dims or len(set(rdepth(a['T']) for a in arrs)) > 1
+                                                 or any(a['kind'] == 'scalar' for a in args))), regular_surplus=surplus, nonzero_start=zero_lo,
                 reg_over_nonregular=any(reg_over_nonregular(a['T']) for a in arrs))
 
 
@@ -1495,20 +1498,24 @@ CHECKLEN = re.compile(r'cannot broadcast \w+ of length \d+ with \w+ of length \d
 
 
 def signature(c, status, msg):
-    """key into known_findings.json: which documented defect of the pinned tree (if any) explains a disagreement"""
+    """key into known_findings.json: which registered open defect of the pinned tree (if any) explains a disagreement.
+    Every key needs the structural precondition of that defect (computed from the case text) AND its symptom."""
     f = c.meta.get('flags') or {}
-    if status == 'err' and 'cannot reshape array of size' in msg and f.get('regular_surplus'):
-        return 'deregulate-untrimmed-content'
-    if f.get('ndnumpy_inner'):
-        return 'ndnumpy-leaf-right-broadcast'
-    if status == 'err' and CHECKLEN.search(msg) and f.get('reg_over_nonregular'):
-        return 'regular-level-no-left-broadcast'
-    if status == 'err' and f.get('nonzero_start') and (CHECKLEN.search(msg) or 'cannot broadcast nested list' in msg
-                                                       or 'cannot broadcast RegularArray of size' in msg):
-        return 'same-offsets-nonzero-start'
+    spec = c.meta.get('pyspec') or ('?',)
+    if spec[0] != 'ok':
+        return None                      # all four open findings are wrong answers / refusals on inputs that should work
+    # D6: a size-1 regular dimension is not repeated zero times outside the NumPy fast path
     if f.get('size01') and status == 'err' and 'cannot broadcast RegularArray of size' in msg:
         return 'regular-size1-to-size0'
-    if f.get('size0'):
+    # D4: n-d NumpyArray leaves of different rank below a variable-length list go to NumPy (right-aligned)
+    if f.get('ndnumpy_inner') and (status == 'ok' or 'operands could not be broadcast' in msg or CHECKLEN.search(msg)
+                                   or 'cannot broadcast RegularArray of size' in msg):
+        return 'ndnumpy-leaf-right-broadcast'
+    # D2: the all-RegularArray branch passes shallower (non-list) arguments on without repeating them
+    if status == 'err' and CHECKLEN.search(msg) and f.get('reg_over_nonregular'):
+        return 'regular-level-no-left-broadcast'
+    # D5: RegularArray(out, size, len(content)): the length of a size-0 dimension is lost
+    if f.get('size0') and (status == 'ok' or CHECKLEN.search(msg)):
         return 'regular-size0-length-lost'
     return None
 
